@@ -19,6 +19,7 @@
 #include "ops_c17.c"
 #include "ops_c01.c"
 #include "ops_c05.c"
+#include "ops_c11.c"
 
 static void on_alarm(int sig)
 {
@@ -54,6 +55,7 @@ int main(void)
     if (!done) done = dispatch_c17(&t);
     if (!done) done = dispatch_c01(&t);
     if (!done) done = dispatch_c05(&t);
+    if (!done) done = dispatch_c11(&t);
     if (!done) printf("R skip\n");
     printf("E\n");      /* end of this op: everything before a crash belongs to the op in flight */
     fflush(stdout);
